@@ -697,3 +697,48 @@ class PyFilterValidBlocks:
                 if (block := (block_of(file_path, (hash_val, start_line, end_line, snippet))
                               if py_keeps(self._statement_detector is not None, file_path, content,
                                           (hash_val, start_line, end_line, snippet)) else None))]
+
+
+# =================================================================== message <-> line count round trip (bounded)
+@custom("dry-message-round-trip", props=["C03"])
+def dry_message_round_trip(ctx):
+    """B tier (DESIGN.md 3/C03: 'P / B for the int() round trip'): the universally quantified lemma
+    line_count_of(message_of(n, occ, locs)) == n needs int(str(n)) == n and first-occurrence reasoning over a
+    symbolic decimal rendering, on which every back end gives up; checked natively on the REAL functions instead."""
+    import sys as _sys
+    repo = ctx["repo"]
+    if repo not in _sys.path:
+        _sys.path.insert(0, repo)
+    from src.linters.dry.violation_builder import DRYViolationBuilder
+    from src.linters.dry.violation_filter import ViolationFilter
+    from src.linters.dry.violation_generator import ViolationGenerator
+    b, f, g = DRYViolationBuilder(), ViolationFilter(), ViolationGenerator()
+    locs = [[], ["b.py:10-12"], ["dir (old)/x lines.py:1-3", "c.ts:7-9"], ["(9 lines, 9 occurrences).py:1-2"]]
+    top = 400 if ctx.get("tier") != "thorough" else 5000
+    bad, cases = None, 0
+    for n in range(0, top):
+        for occ in (1, 2, 3, 10, 123):
+            for ls in locs:
+                cases += 1
+                m = b._build_message(n, occ, ls)
+                got = (f._extract_line_count(m), g._extract_line_count(m))
+                if got != (n, n) and bad is None:
+                    bad = f"_build_message({n}, {occ}, {ls!r}) = {m!r}: parsed back as {got}"
+    return [{"name": "custom:dry-message-round-trip/extract-inverts-build", "kind": "bounded",
+             "verdict": "refuted" if bad else "passed", "note": bad or f"line counts 0..{top - 1} parse back unchanged",
+             "tool": "native enumeration (DRYViolationBuilder._build_message, both _extract_line_count)",
+             "budget": cases, "cases": cases, "witness": bad, "witness_confirmed": bool(bad)}]
+
+
+@lemma(props=["C03"], types=dict(storage=StorageT, rule_id=Str, config=DRYConfigT, ranges=Dict, r=Violations),
+       name="no-duplicate-hash-no-violation")
+def no_duplicate_hash_no_violation(storage, rule_id, config, ranges, r):
+    """Property text: 'projects that share no such run produce no DRY violation' -- on the pipeline that
+    generate_violations is proved to implement: with no hash stored twice nothing is collected, and since every later
+    stage only removes violations (subseq), the final list r is empty."""
+    if len(db_dup_hashes(storage._cache.db)) != 0:
+        return True
+    reveal(collect, db_dup_hashes(storage._cache.db), storage._cache.db, rule_id, config)
+    reveal(subseq, r, reported_before_shared_filter(storage, rule_id, config, ranges))
+    return reported_before_shared_filter(storage, rule_id, config, ranges) == [] and \
+        implies(subseq(r, reported_before_shared_filter(storage, rule_id, config, ranges)), len(r) == 0)
